@@ -4,6 +4,10 @@ pub(super) fn ntv2_subgrid(
     parser: &NTv2Parser,
     head_offset: usize,
 ) -> Result<(String, String, BaseGrid), Error> {
+    // A sub grid header announced by the overview header, but cut off
+    if head_offset + HEADER_SIZE > parser.buffer().len() {
+        return Err(Error::Invalid("Grid Too Short".to_string()));
+    }
     let head = SubGridHeader::new(parser, head_offset)?;
     let name = head.name.clone();
     let parent = head.parent.clone();
@@ -53,7 +57,7 @@ impl SubGridHeader {
         let row_size = (((wlon - elon) / dlon).abs() + 1.0).floor() as u64;
 
         let num_nodes = parser.get_u32(offset + GSCOUNT) as u64;
-        if num_nodes != (num_rows * row_size) {
+        if Some(num_nodes) != num_rows.checked_mul(row_size) {
             return Err(Error::Invalid(
                 "Number of nodes does not match the grid size".to_string(),
             ));
